@@ -435,8 +435,12 @@ def run(ctx: Context, rep) -> None:
     # directory later is (same rule as C20.reloc's root clause)
     from sa.rules.c20 import check_root_resolved
     check_root_resolved(ctx, rep, "C08.root")
-
-
+    # nothing read from the dataset's files / the environment is memoised
+    from sa.rules import shared as _shm
+    _shm.check_no_memo(ctx, rep, "C08.memo")
+    # the parent merges what the WORKERS wrote (same check as C09.collect)
+    from sa.rules import shared as _sh08
+    _sh08.share_rules(ctx, rep, "c09", {"C09.collect": "C08.collect"})
 
 _SM = "src/sedpack/io/shard_file_metadata.py"
 _MG = "src/sedpack/io/merge_shard_infos.py"
